@@ -605,6 +605,58 @@ def _grain_sibling(ctx, rm, regs, F, tval, key, where):
         ctx.ok("R5", key, where, "grain-delegated: the symbols read from the reaction are the same" + (f" (or refused: {sorted(refused)} not registered natively)" if refused else ""))
 
 
+def _possible_names(rm, pkg, F, owner, meth, name_ir, depth=0):
+    """The set of literal strings an attribute-name expression can evaluate to, or None when that cannot be told: a literal; an entry of a
+    class-level table of literals (`self._columns[key]`, `.get(key)`); a conditional of those; a parameter of the method that EVERY call site
+    in the class's module -- direct calls and functools.partial(..) bindings -- gives a literal."""
+    v = simp(subst(simp(name_ir), rm.class_consts(F)))
+    if v[0] == "const" and isinstance(v[1], str):
+        return {v[1]}
+    if v[0] in ("phi", "ifexp") and len(v) == 4:
+        a, b = _possible_names(rm, pkg, F, owner, meth, v[2], depth), _possible_names(rm, pkg, F, owner, meth, v[3], depth)
+        return None if a is None or b is None else a | b
+    table = v[1] if v[0] == "sub" else v[1] if v[0] == "meth" and v[2] == "get" and len(v[3]) == 1 else None
+    if table is not None and table[0] == "dict" and table[1] and all(val[0] == "const" and isinstance(val[1], str) for _k, val in table[1]):
+        return {val[1] for _k, val in table[1]}
+    if table is not None and table[0] == "attr" and table[1] in (SELF, ("param", "cls")):
+        # a class-level table of names (read directly: RateModel.class_displays gives up on every table of a class that uses setattr).  It
+        # is the display it is bound to when no method assigns it and the names it holds do not include its own
+        tname = table[2]
+        _c, node = pkg.resolve_attr(F, tname)
+        assigned = any(isinstance(a_, ast.Attribute) and a_.attr == tname and isinstance(a_.ctx, (ast.Store, ast.Del))
+                       for c_ in pkg.mro(F) if c_ in pkg.classes for m_ in pkg.classes[c_].methods.values() for a_ in ast.walk(m_))
+        if isinstance(node, ast.Dict) and node.values and not assigned and all(isinstance(x, ast.Constant) and isinstance(x.value, str) for x in node.values):
+            names = {x.value for x in node.values}
+            return names if tname not in names else None
+    if v[0] == "param" and depth == 0:
+        params = [a.arg for a in meth.args.args]
+        if v[1] not in params:
+            return None
+        pos = params.index(v[1]) - 1          # (position among the arguments of a call through self / cls)
+        mod = pkg.modules.get(pkg.classes[owner].file)
+        found = set()
+        for c in ast.walk(mod) if mod is not None else ():
+            if not isinstance(c, ast.Call):
+                continue
+            fname = ast.unparse(c.func)
+            args, shift = None, 0
+            if fname in (f"self.{meth.name}", f"cls.{meth.name}"):
+                args = c.args
+            elif fname in ("partial", "functools.partial") and c.args and ast.unparse(c.args[0]) in (meth.name, f"self.{meth.name}", f"cls.{meth.name}", f"{owner}.{meth.name}"):
+                args, shift = c.args[1:], (1 if ast.unparse(c.args[0]) in (meth.name, f"{owner}.{meth.name}") else 0)     # (the plain function still takes self)
+            if args is None:
+                continue
+            kw = next((k.value for k in c.keywords if k.arg == v[1]), None)
+            given = kw if kw is not None else (args[pos + shift] if 0 <= pos + shift < len(args) else None)
+            if given is None and fname.endswith("partial"):
+                continue                      # (this partial leaves the parameter open: whoever calls it is not visible)
+            if not (isinstance(given, ast.Constant) and isinstance(given.value, str)):
+                return None
+            found.add(given.value)
+        return found or None
+    return None
+
+
 def _explicit_law_refused(ctx, rm, pkg):
     """R11: a format class whose rate law is NOT a function of what the exchange format stores (type code, alpha, beta, gamma, window) -- its
     rateexpr reads state of its own that Reaction.__format__('naunet') does not write, like KROME's explicit rate text -- must export a type
@@ -648,7 +700,14 @@ def _explicit_law_refused(ctx, rm, pkg):
                     elif f.kind == "call" and f.value is not None and f.value[0] == "meth" and f.value[2] == "__init__":
                         vals += [(simp(v_), (file_, f.line)) for k_, v_ in f.value[4] if k_ == "reaction_type"]
                     elif f.kind == "call" and f.value is not None and f.value[0] == "call" and f.value[1] == ("global", "setattr"):
-                        opaque.append(f"{c_}.{mname}: {show(f.value)[:60]}")
+                        # an attribute stored by computed name: which names can it be?  (a class-level table of names, a parameter every
+                        # caller binds to a literal ..)  Not understood only when `reaction_type` cannot be excluded
+                        sargs = f.value[2]
+                        names_ = _possible_names(rm, pkg, F, c_, m_, sargs[1]) if len(sargs) == 3 and sargs[0] == SELF else None
+                        if names_ is None:
+                            opaque.append(f"{c_}.{mname}: {show(f.value)[:60]}")
+                        elif "reaction_type" in names_:
+                            vals.append((simp(sargs[2]), (file_, f.line)))
         if not vals:
             # nothing of its own: the base constructor's default
             init = pkg.method("Reaction", "__init__")
